@@ -86,7 +86,7 @@ class Gen:
         if r < 0.7:
             return temp("$U%d" % self.rng.randrange(1, 4), size)
         if r < 0.85 or not allow_ram or size > 8:
-            return const(self.rng.choice([0, 1, 2, 0xff, 0x80, 0x7fffffff, 0xffffffffffffffff, 0x10, 8]), size)
+            return const(self.rng.choice([0, 1, 2, 0xff, 0x80, 0x7fffffff, 0xffffffffffffffff, 0x8000000000000000, 0x10, 8]), size)
         return ram(0x4000 + 8 * self.rng.randrange(0, 4), size)
 
     def vout(self, size, allow_ram=True):
@@ -111,6 +111,8 @@ class Gen:
         if k < 0.12:
             return self.mk(self.vout(size), "COPY", self.vin(size))
         if k < 0.34:
+            if size == 16:
+                return self.mk(self.vout(16), rng.choice(["INT_AND", "INT_OR", "INT_XOR", "INT_ADD", "INT_SUB"]), self.vin(16), self.vin(16))
             s = min(size, 8)
             return self.mk(self.vout(s), rng.choice(SAME_BIN), self.vin(s), self.vin(s))
         if k < 0.46:
@@ -267,6 +269,18 @@ def exhaustive_single(max_items=None):
             for o in outs(s):
                 for a in ins(s):
                     defs.append((o, m, a, None, None))
+    # 16-byte operands with constants whose printed 64-bit value has bit 63 set / clear (constants wider than 8 bytes are zero-extended)
+    for m in ("INT_AND", "INT_OR", "INT_ADD", "INT_XOR", "COPY"):
+        for cv in (0xffffffffffffffff, 0x8000000000000000, 0x7fffffffffffffff, 0xffffffff, 1 << 100):
+            for o in (reg("XMM0", 16), temp("$U1", 16)):
+                if m == "COPY":
+                    defs.append((o, m, const(cv, 16), None, None))
+                else:
+                    defs.append((o, m, reg("XMM0", 16), const(cv, 16), None))
+                    defs.append((o, m, const(cv, 16), temp("$U2", 16), None))
+    for cv in (0xffffffffffffffff, 0x8000000000000000):
+        defs.append((None, "STORE", const(0x1b1, 8), reg("RDI", 8), const(cv, 16)))
+        defs.append((reg("YMM0", 32), "INT_ZEXT", const(cv, 16), None, None))
     for m in BOOL:
         for o in outs(1):
             for a in ins(1):
